@@ -84,6 +84,7 @@ func main() {
 				s.w = NewWorld(mintDenom)
 			}
 			fmt.Fprintln(bw, safeExec(s, op))
+			bw.Flush() // per line: a crash of the process must not lose the observations before it
 		}
 		bw.Flush()
 		bf.Close()
